@@ -26,8 +26,22 @@ Excluded points, each run on the real code by `harness/c15.py` (distribution key
                                              (or its `assert not math.isinf` fails)
 * decreasing rtimes                        ⇒ repair produces negative durations
 * negative last duration, jumpPosition set ⇒ repair runs, renderer: "interpolation length is longer"
+
+Further sections:
+* the deprecated reader option (`fix_blockFormat_durations`, duration pass only): `fixDurationsOnly_spec`
+  and the two counter-examples showing what it does not repair;
+* the rounding functions the generator really applies (Python `round` = half-even, floor, ceil, and any
+  per-value mixture) are instances of `Rounding` / `Near`: `roundHalfEven_meets_hypotheses`, …,
+  `mixed_rounding_meets_hypotheses`;
+* whole documents (`Model/TimingFixDoc.lean`, `Proofs/C15Doc.lean`): the pairing of audioObjects and
+  audioChannelFormats in `check_blockFormat_times_for_audioObjects` is computed by the pack-allocator
+  model instead of being an input: `doc_fix_post`, `doc_fix_idempotent_silent`, excluded point
+  `excluded_doc_conflicting_refs` (`AdmFormatRefError` escapes from the repair).
 -/
 import Earverif.Proofs.C15
+import Earverif.Proofs.C15Doc
+
+set_option linter.unusedSimpArgs false
 
 namespace Earverif.TimingFix
 
@@ -168,9 +182,111 @@ theorem fix_second_run_silent (objs : List Obj) (bs out out' : List Block) (ws w
   cases hf'
   exact ⟨rfl, rfl⟩
 
+/-! ## The deprecated reader option: `fix_blockFormat_durations` (duration pass only) -/
+
+/-- `fix_blockFormat_timings` is the duration pass (= everything the reader option
+`load_axml_doc(fix_block_format_durations=True)` runs), followed by the interpolationLength pass and
+the clamp to the objects. -/
+theorem fixTimings_eq_stages (objs : List Obj) (bs : List Block) :
+    fixTimings objs bs =
+      (match checkTimesForObjects objs (checkILs 0 (fixDurationsOnly bs).1).1 with
+       | .error e => .error e
+       | .ok r => .ok (r.1, (fixDurationsOnly bs).2 ++ (checkILs 0 (fixDurationsOnly bs).1).2 ++ r.2)) := rfl
+
+/-- **fixDurationsOnly_spec.**  On a channel whose blocks all have rtime and duration (no
+monotonicity or object hypothesis needed) the reader option's repair keeps every rtime (and block
+count, types, flags, presence of durations / interpolation lengths), makes the blocks contiguous,
+keeps the last duration, is idempotent and silent the second time, and is the first stage of
+`fix_blockFormat_timings`.  It does not look at interpolation lengths (except the silent
+"contracted below the interpolation length" case) nor at audioObjects: see
+`durationsOnly_leaves_interp_too_long`, `durationsOnly_leaves_block_past_object`. -/
+theorem fixDurationsOnly_spec (bs : List Block) (ht : AllTimed bs) :
+    RelP Same bs (fixDurationsOnly bs).1 ∧
+    (fixDurationsOnly bs).1.map (·.rtime) = bs.map (·.rtime) ∧
+    Contig (fixDurationsOnly bs).1 ∧
+    (LastNonneg bs → LastNonneg (fixDurationsOnly bs).1) ∧
+    fixDurationsOnly (fixDurationsOnly bs).1 = ((fixDurationsOnly bs).1, []) := by
+  obtain ⟨r1, c1, n1⟩ := checkDurations_spec bs 0 ht
+  refine ⟨r1, rel_rtimes r1, c1, n1, ?_⟩
+  exact checkDurations_stable _ 0 (fun b hb => Or.inl (rel_allTimed r1 ht b hb)) c1
+
+/-- the same under the property's hypotheses `Hyp` (timed channel or a single untimed block) -/
+theorem fixDurationsOnly_hyp (objs : List Obj) (bs : List Block) (h : Hyp objs bs) :
+    (fixDurationsOnly bs).1.map (·.rtime) = bs.map (·.rtime) ∧ Contig (fixDurationsOnly bs).1 ∧
+    fixDurationsOnly (fixDurationsOnly bs).1 = ((fixDurationsOnly bs).1, []) := by
+  cases h with
+  | timed ht _ _ =>
+    obtain ⟨_, h2, h3, _, h5⟩ := fixDurationsOnly_spec bs ht
+    exact ⟨h2, h3, h5⟩
+  | untimed b hb _ => subst hb; exact ⟨rfl, trivial, rfl⟩
+
+/-- after the reader option's repair the full repair has nothing left to do in its first pass: its
+result is the interpolationLength pass and the clamp applied to the reader option's result -/
+theorem fixTimings_after_durationsOnly (objs : List Obj) (bs : List Block) (ht : AllTimed bs) :
+    fixTimings objs (fixDurationsOnly bs).1 =
+      (match fixTimings objs bs with
+       | .error e => .error e
+       | .ok r => .ok (r.1, (checkILs 0 (fixDurationsOnly bs).1).2 ++
+           (match checkTimesForObjects objs (checkILs 0 (fixDurationsOnly bs).1).1 with
+            | .ok r' => r'.2 | .error _ => []))) := by
+  have h := (fixDurationsOnly_spec bs ht).2.2.2.2
+  rw [fixTimings_eq_stages objs (fixDurationsOnly bs).1, h, fixTimings_eq_stages objs bs]
+  cases checkTimesForObjects objs (checkILs 0 (fixDurationsOnly bs).1).1 with
+  | error e => rfl
+  | ok r => simp
+
+private def qq (n : Int) (d : Nat) : Rat := mkRat n d
+private def obb (r d : Option Rat) (jp : Bool := false) (il : Option Rat := none) : Block := ⟨r, d, true, jp, il⟩
+
+/-- verdict of the renderer on the fully repaired channel (`none`: the repair raised) -/
+def acceptedAfterFix (o : Obj) (bs : List Block) : Option Verdict :=
+  match fixTimings [o] bs with
+  | .ok r => some (accepted o r.1)
+  | .error _ => none
+
+private def exIl : List Block :=
+  [obb (some 0) (some (qq 33 100)) true (some (qq 1 2)), obb (some (qq 34 100)) (some (qq 33 100))]
+private def exPast : List Block := [obb (some 0) (some (qq 1 2)), obb (some (qq 1 2)) (some (qq 51 100))]
+
+/-- **What the reader option does not repair (1).**  Inside `Hyp`/`HypAccept`: the first block is
+expanded from 0.33 to 0.34 but its interpolationLength 0.5 stays; the renderer rejects the channel
+("interpolation length is longer than block"), while after the full repair it is accepted. -/
+theorem durationsOnly_leaves_interp_too_long :
+    fixDurationsOnly exIl =
+      ([obb (some 0) (some (qq 34 100)) true (some (qq 1 2)), obb (some (qq 34 100)) (some (qq 33 100))],
+       [⟨.expanded, 0⟩]) ∧
+    accepted ⟨none, none⟩ (fixDurationsOnly exIl).1 = .interpTooLong ∧
+    acceptedAfterFix ⟨none, none⟩ exIl = some .ok := by decide +kernel
+
+/-- **What the reader option does not repair (2).**  The last block (0.5 + 0.51) ends after its
+object (duration 1): untouched by the reader option, rejected by the renderer ("ends after object");
+the full repair clamps it. -/
+theorem durationsOnly_leaves_block_past_object :
+    fixDurationsOnly exPast = (exPast, []) ∧
+    accepted ⟨none, some 1⟩ (fixDurationsOnly exPast).1 = .endsAfterObject ∧
+    acceptedAfterFix ⟨none, some 1⟩ exPast = some .ok := by decide +kernel
+
+/-- both examples are inside the hypotheses of the headline theorems -/
+example : Hyp [⟨none, none⟩] exIl ∧ HypAccept [⟨none, none⟩] exIl := by
+  refine ⟨Hyp.timed ?_ ?_ ?_, ?_, ?_⟩
+  · intro b hb; simp [exIl, obb] at hb; rcases hb with rfl | rfl <;> simp [Timed]
+  · refine ⟨?_, trivial⟩; simp [exIl, obb, Block.r]; decide +kernel
+  · intro o ho D hD; simp at ho; subst ho; simp at hD
+  · simp [exIl, obb, LastNonneg, Block.d]; decide +kernel
+  · intro ⟨b, hb, hu⟩; simp [exIl, obb] at hb; rcases hb with rfl | rfl <;> simp [Untimed] at hu
+example : Hyp [⟨none, some 1⟩] exPast ∧ HypAccept [⟨none, some 1⟩] exPast := by
+  refine ⟨Hyp.timed ?_ ?_ ?_, ?_, ?_⟩
+  · intro b hb; simp [exPast, obb] at hb; rcases hb with rfl | rfl <;> simp [Timed]
+  · refine ⟨?_, trivial⟩; simp [exPast, obb, Block.r]; decide +kernel
+  · intro o ho D hD; simp at ho; subst ho; simp at hD; subst hD
+    simp [exPast, obb, LastBelow, Block.r]; decide +kernel
+  · simp [exPast, obb, LastNonneg, Block.d]; decide +kernel
+  · intro ⟨b, hb, hu⟩; simp [exPast, obb] at hb; rcases hb with rfl | rfl <;> simp [Untimed] at hu
+
 /-! ## Rounded timelines meet the hypotheses -/
 
-/-- Round to `k` decimals: nearest multiple of `10^-k` (ties upwards). -/
+/-- Round to `k` decimals: nearest multiple of `10^-k` (ties upwards).  The generator uses Python's
+`round` (ties to even): `roundHalfEven` below; both are instances of `Rounding`. -/
 def roundDec (k : Nat) (x : Rat) : Rat :=
   ((x * (10 : Rat) ^ k + 1 / 2).floor : Rat) * ((10 : Rat) ^ k)⁻¹
 
@@ -426,6 +542,218 @@ theorem perturbation_meets_hypotheses (δ : Rat) (hδ : 0 ≤ δ) (objs objs' : 
   · intro ⟨x, hx, hu⟩
     exact (timed_not_untimed (tm x hx) hu).elim
 
+/-! ## The rounding functions the generator uses (half-even, floor, ceil) are instances -/
+
+/- `roundHalfEvenInt`, `decWith`, `roundHalfEven`, `floorDec`, `ceilDec` are defined in
+`Model/TimingFix.lean` (the driver runs them against `harness/c15.py: rnd`). -/
+
+theorem intCast_succ (n : Int) : ((n + 1 : Int) : Rat) = (n : Rat) + 1 := by simp [Rat.intCast_add]
+
+theorem roundHalfEvenInt_err (y : Rat) :
+    (roundHalfEvenInt y : Rat) - y ≤ 1 / 2 ∧ y - (roundHalfEvenInt y : Rat) ≤ 1 / 2 := by
+  have h1 := Rat.floor_le y
+  have h2 := Rat.lt_floor_add_one y
+  rw [intCast_succ] at h2
+  unfold roundHalfEvenInt
+  simp only
+  generalize y.floor = f at *
+  split
+  · constructor <;> grind
+  · split
+    · rw [intCast_succ]; constructor <;> grind
+    · split
+      · constructor <;> grind
+      · rw [intCast_succ]; constructor <;> grind
+
+theorem floor_err (y : Rat) : ((y.floor : Int) : Rat) - y ≤ 0 ∧ y - ((y.floor : Int) : Rat) ≤ 1 := by
+  have h1 := Rat.floor_le y
+  have h2 := Rat.lt_floor_add_one y
+  rw [intCast_succ] at h2
+  constructor <;> grind
+
+theorem ceil_err (y : Rat) : ((y.ceil : Int) : Rat) - y ≤ 1 ∧ y - ((y.ceil : Int) : Rat) ≤ 0 := by
+  have h1 : y ≤ ((y.ceil : Int) : Rat) := Rat.le_ceil
+  have h2 : ((y.ceil : Int) : Rat) < y + 1 := Rat.ceil_lt
+  constructor <;> grind
+
+theorem ceil_monotone {a b : Rat} (h : a ≤ b) : a.ceil ≤ b.ceil := by
+  apply Rat.ceil_le_iff.mpr
+  have : b ≤ ((b.ceil : Int) : Rat) := Rat.le_ceil
+  grind
+
+/-- any integer rounding with error at most `c ≤ 1/2`… is monotone -/
+theorem rint_mono_of_half (rint : Rat → Int)
+    (h : ∀ y, (rint y : Rat) - y ≤ 1 / 2 ∧ y - (rint y : Rat) ≤ 1 / 2) (a b : Rat) (hab : a ≤ b) :
+    rint a ≤ rint b := by
+  by_cases e : a = b
+  · subst e; exact Int.le_refl _
+  · have hlt : a < b := by grind
+    apply Int.not_lt.mp
+    intro hc
+    have h3 : rint b + 1 ≤ rint a := hc
+    have h4 : ((rint b + 1 : Int) : Rat) ≤ (rint a : Rat) := Rat.intCast_le_intCast.2 h3
+    rw [intCast_succ] at h4
+    have := h a; have := h b
+    grind
+
+theorem decWith_mono (rint : Rat → Int) (hm : ∀ a b, a ≤ b → rint a ≤ rint b) (k : Nat) (x y : Rat)
+    (h : x ≤ y) : decWith rint k x ≤ decWith rint k y := by
+  have hp := pow10_pos k
+  have hi : (0 : Rat) ≤ ((10 : Rat) ^ k)⁻¹ := by
+    have := Rat.inv_pos.2 hp; grind
+  unfold decWith
+  apply Rat.mul_le_mul_of_nonneg_right _ hi
+  apply Rat.intCast_le_intCast.2
+  apply hm
+  exact Rat.mul_le_mul_of_nonneg_right h (Rat.le_of_lt hp)
+
+/-- an integer rounding with `-lo ≤ rint y - y ≤ hi` gives a decimal rounding with the same bounds
+in units of `10^-k` -/
+theorem decWith_err (rint : Rat → Int) (lo hi : Rat)
+    (he : ∀ y, (rint y : Rat) - y ≤ hi ∧ y - (rint y : Rat) ≤ lo) (k : Nat) (x : Rat) :
+    decWith rint k x - x ≤ hi * ((10 : Rat) ^ k)⁻¹ ∧ x - decWith rint k x ≤ lo * ((10 : Rat) ^ k)⁻¹ := by
+  have hp := pow10_pos k
+  have hi' : (0 : Rat) < ((10 : Rat) ^ k)⁻¹ := Rat.inv_pos.2 hp
+  have hpe : (10 : Rat) ^ k * ((10 : Rat) ^ k)⁻¹ = 1 := Rat.mul_inv_cancel _ (by grind)
+  unfold decWith
+  generalize (10 : Rat) ^ k = p at *
+  generalize p⁻¹ = e at *
+  obtain ⟨h1, h2⟩ := he (x * p)
+  generalize (rint (x * p) : Rat) = n at *
+  have h1' := Rat.mul_le_mul_of_nonneg_right h1 (Rat.le_of_lt hi')
+  have h2' := Rat.mul_le_mul_of_nonneg_right h2 (Rat.le_of_lt hi')
+  have e1 : x * p * e = x := by rw [Rat.mul_assoc, hpe, Rat.mul_one]
+  constructor <;> grind
+
+
+theorem half_mul (e : Rat) : 1 / 2 * e = e / 2 := by grind
+theorem one_mul_two (e : Rat) : 1 * e = 2 * e / 2 := by grind
+
+/-- **Python's `round` (half-even) to `k` decimals is a `Rounding` with unit `10^-k`.**  This is the
+function `harness/c15.py: rnd(x, k, "n")` applies (`round(Fraction)`), tied by the driver op `round`. -/
+theorem roundHalfEven_rounding (k : Nat) : Rounding (roundHalfEven k) ((10 : Rat) ^ k)⁻¹ := by
+  refine ⟨decWith_mono _ (rint_mono_of_half _ roundHalfEvenInt_err) k, fun x => ?_⟩
+  have := decWith_err roundHalfEvenInt (1 / 2) (1 / 2) roundHalfEvenInt_err k x
+  rw [half_mul] at this
+  exact this
+
+/-- truncation (`math.floor`) to `k` decimals: a `Rounding` with unit `2·10^-k` (error up to one
+decimal unit, always downwards) -/
+theorem floorDec_rounding (k : Nat) : Rounding (floorDec k) (2 * ((10 : Rat) ^ k)⁻¹) := by
+  have hi : (0 : Rat) < ((10 : Rat) ^ k)⁻¹ := Rat.inv_pos.2 (pow10_pos k)
+  refine ⟨decWith_mono _ (fun a b h => Rat.floor_monotone h) k, fun x => ?_⟩
+  have := decWith_err Rat.floor 1 0 floor_err k x
+  unfold floorDec
+  generalize decWith Rat.floor k x = y at *
+  constructor <;> grind
+
+/-- rounding up (`math.ceil`) to `k` decimals: a `Rounding` with unit `2·10^-k` -/
+theorem ceilDec_rounding (k : Nat) : Rounding (ceilDec k) (2 * ((10 : Rat) ^ k)⁻¹) := by
+  have hi : (0 : Rat) < ((10 : Rat) ^ k)⁻¹ := Rat.inv_pos.2 (pow10_pos k)
+  refine ⟨decWith_mono _ (fun a b h => ceil_monotone h) k, fun x => ?_⟩
+  have := decWith_err Rat.ceil 0 1 ceil_err k x
+  unfold ceilDec
+  generalize decWith Rat.ceil k x = y at *
+  constructor <;> grind
+
+/-- **roundHalfEven_meets_hypotheses.**  The instance of `rounding_meets_hypotheses` for what the
+generator's "nearest" convention does: every time of a valid exact timeline with durations above
+`10^-k` written with Python's `round(x·10^k)/10^k` meets `Hyp` and `HypAccept`. -/
+theorem roundHalfEven_meets_hypotheses (k : Nat) (objs : List Obj) (bs : List Block)
+    (h : ExactValid ((10 : Rat) ^ k)⁻¹ objs bs) :
+    Hyp (objs.map (roundObj (roundHalfEven k))) (bs.map (roundBlock (roundHalfEven k))) ∧
+    HypAccept (objs.map (roundObj (roundHalfEven k))) (bs.map (roundBlock (roundHalfEven k))) :=
+  rounding_meets_hypotheses _ _ (roundHalfEven_rounding k) objs bs h
+
+/-- all values truncated: durations above two decimal units suffice -/
+theorem floorDec_meets_hypotheses (k : Nat) (objs : List Obj) (bs : List Block)
+    (h : ExactValid (2 * ((10 : Rat) ^ k)⁻¹) objs bs) :
+    Hyp (objs.map (roundObj (floorDec k))) (bs.map (roundBlock (floorDec k))) ∧
+    HypAccept (objs.map (roundObj (floorDec k))) (bs.map (roundBlock (floorDec k))) :=
+  rounding_meets_hypotheses _ _ (floorDec_rounding k) objs bs h
+
+/-- all values rounded up: durations above two decimal units suffice -/
+theorem ceilDec_meets_hypotheses (k : Nat) (objs : List Obj) (bs : List Block)
+    (h : ExactValid (2 * ((10 : Rat) ^ k)⁻¹) objs bs) :
+    Hyp (objs.map (roundObj (ceilDec k))) (bs.map (roundBlock (ceilDec k))) ∧
+    HypAccept (objs.map (roundObj (ceilDec k))) (bs.map (roundBlock (ceilDec k))) :=
+  rounding_meets_hypotheses _ _ (ceilDec_rounding k) objs bs h
+
+/-! ### the generator's mixed convention: each value independently nearest / truncated / rounded up -/
+
+/-- `y` is `x` written with `k` decimals by one of the three conventions of `harness/c15.py: rnd`
+(`"n"`: Python `round`, half-even; `"f"`: `math.floor`; `"c"`: `math.ceil`) -/
+def DecWritten (k : Nat) (x y : Rat) : Prop :=
+  y = roundHalfEven k x ∨ y = floorDec k x ∨ y = ceilDec k x
+
+theorem decWritten_near (k : Nat) (x y : Rat) (h : DecWritten k x y) :
+    y - x ≤ ((10 : Rat) ^ k)⁻¹ ∧ x - y ≤ ((10 : Rat) ^ k)⁻¹ := by
+  have hi : (0 : Rat) < ((10 : Rat) ^ k)⁻¹ := Rat.inv_pos.2 (pow10_pos k)
+  rcases h with rfl | rfl | rfl
+  · have := (roundHalfEven_rounding k).err x; constructor <;> grind
+  · have := (floorDec_rounding k).err x; constructor <;> grind
+  · have := (ceilDec_rounding k).err x; constructor <;> grind
+
+/-- block `b` is the timed block `a` with rtime and duration each written with `k` decimals by any
+of the three conventions (type, jumpPosition, interpolationLength unconstrained) -/
+def WrittenBlock (k : Nat) (a b : Block) : Prop :=
+  Timed a ∧ Timed b ∧ DecWritten k a.r b.r ∧ DecWritten k a.d b.d
+
+/-- object `o'` is `o` with its duration (if any) written with `k` decimals by any convention -/
+def WrittenObj (k : Nat) (o o' : Obj) : Prop :=
+  match o.duration, o'.duration with
+  | some D, some D' => DecWritten k D D'
+  | none, none => True
+  | _, _ => False
+
+def RelW (k : Nat) : List Obj → List Obj → Prop
+  | [], [] => True
+  | o :: os, o' :: os' => WrittenObj k o o' ∧ RelW k os os'
+  | _, _ => False
+
+theorem writtenBlock_near (k : Nat) (a b : Block) (h : WrittenBlock k a b) :
+    Near ((10 : Rat) ^ k)⁻¹ a b := by
+  obtain ⟨ta, tb, hr, hd⟩ := h
+  have := decWritten_near k _ _ hr; have := decWritten_near k _ _ hd
+  exact ⟨ta, tb, by grind, by grind, by grind, by grind⟩
+
+theorem relW_relO (k : Nat) : ∀ {os os' : List Obj}, RelW k os os' → RelO ((10 : Rat) ^ k)⁻¹ os os'
+  | [], [], _ => trivial
+  | _ :: _, [], h => h.elim
+  | [], _ :: _, h => h.elim
+  | o :: os, o' :: os', h => by
+    refine ⟨?_, relW_relO k h.2⟩
+    have h1 := h.1
+    simp only [WrittenObj, NearObj] at h1 ⊢
+    cases hd : o.duration <;> cases hd' : o'.duration <;> simp only [hd, hd'] at h1 ⊢ <;> try trivial
+    exact decWritten_near k _ _ h1
+
+/-- **mixed_rounding_meets_hypotheses.**  A valid exact timeline (contiguous, inside its objects)
+whose durations exceed two decimal units, every rtime / duration / object duration written with `k`
+decimals by *any* per-value choice of nearest (half-even), truncation or rounding up, meets `Hyp`
+and `HypAccept`.  This is the generator's `conv = "mixed"` / `"ilceil"` class. -/
+theorem mixed_rounding_meets_hypotheses (k : Nat) (objs objs' : List Obj) (bs bs' : List Block)
+    (hb : RelP (WrittenBlock k) bs bs') (ho : RelW k objs objs') (hc : Contig bs)
+    (hlong : ∀ b ∈ bs, 2 * ((10 : Rat) ^ k)⁻¹ < b.d)
+    (hin : ∀ o ∈ objs, ∀ D, o.duration = some D → Within D bs) :
+    Hyp objs' bs' ∧ HypAccept objs' bs' :=
+  perturbation_meets_hypotheses _ (Rat.le_of_lt (Rat.inv_pos.2 (pow10_pos k))) objs objs' bs bs'
+    (RelP.mono (writtenBlock_near k) hb) (relW_relO k ho) hc hlong hin
+
+/-- the three conventions evaluated: 0.125 to two decimals is 0.12 (half-even; `roundDec` gives 0.13),
+0.12 truncated, 0.13 rounded up; 0.135 → 0.14 (even); −0.125 → −0.12 -/
+example : roundHalfEven 2 (mkRat 1 8) = mkRat 12 100 ∧ roundDec 2 (mkRat 1 8) = mkRat 13 100 ∧
+    floorDec 2 (mkRat 1 8) = mkRat 12 100 ∧ ceilDec 2 (mkRat 1 8) = mkRat 13 100 ∧
+    roundHalfEven 2 (mkRat 135 1000) = mkRat 14 100 ∧ roundHalfEven 2 (mkRat (-1) 8) = mkRat (-12) 100 := by
+  decide +kernel
+
+/-- Non-vacuity of `WrittenBlock`: thirds of a second, second rtime rounded up and its duration
+truncated. -/
+example : WrittenBlock 2 ⟨some (mkRat 1 3), some (mkRat 1 3), true, false, none⟩
+    ⟨some (mkRat 34 100), some (mkRat 33 100), true, true, some (mkRat 34 100)⟩ := by
+  refine ⟨by simp [Timed], by simp [Timed], Or.inr (Or.inr ?_), Or.inr (Or.inl ?_)⟩ <;>
+    simp [Block.r, Block.d] <;> decide +kernel
+
 /-! ## Excluded points (the hypotheses cannot be dropped) and non-vacuity -/
 
 deriving instance DecidableEq for Except
@@ -517,5 +845,110 @@ example : RelP (Near (q 1 100))
     [ob (some 0) (some (q 33 100)), ob (some (q 34 100)) (some (q 33 100)) true (some (q 34 100)),
      ob (some (q 66 100)) (some (q 34 100))] := by
   refine ⟨?_, ?_, ?_, trivial⟩ <;> simp [Near, ob, Timed, Block.r, Block.d] <;> decide +kernel
+
+/-! ## The whole document: which audioObjects clamp which audioChannelFormats
+
+`Model/TimingFixDoc.lean` transliterates the three passes over all audioChannelFormats and the
+traversal of `check_blockFormat_times_for_audioObjects` (`ObjectChannelMatcher` = the pack allocator
+on each audioObject's own references; `Proofs/C15Doc.lean`: `docFix_channel`, `docFix_ok`,
+`docFix_stable`). -/
+
+/-- Hypotheses on a document: the pack allocator finds a unique allocation for every audioObject
+that has a duration (otherwise `AdmFormatRefError` escapes, `excluded_doc_conflicting_refs`), and
+every audioChannelFormat meets `Hyp` for the audioObjects whose allocation contains it. -/
+structure DocHyp (pairs : List (Obj × Option (List Nat))) (t : Table) : Prop where
+  matcher : ∀ p ∈ pairs, p.1.duration.isSome = true → p.2.isSome = true
+  chan : ∀ c, c < t.length → Hyp (objsFor pairs c) (Table.get t c)
+
+/-- **doc_fix_post.**  `fix_blockFormat_timings(adm)` on a document meeting `DocHyp` does not raise
+and leaves every audioChannelFormat `c` in the state `Post` describes (rtimes unchanged, contiguous,
+interpolation lengths inside their blocks, blocks inside every audioObject whose allocation contains
+`c`, accepted by the renderer for each of them, stable) — `objs` is no longer an input but computed
+by the model of `ObjectChannelMatcher` / the pack allocator. -/
+theorem doc_fix_post (pairs : List (Obj × Option (List Nat))) (t : Table) (h : DocHyp pairs t) :
+    ∃ t' ws, docFix pairs t = .ok (t', ws) ∧ t'.length = t.length ∧
+      ∀ c, c < t.length → Post (objsFor pairs c) (Table.get t c) (Table.get t' c) := by
+  obtain ⟨r, hr⟩ := docFix_ok pairs t h.matcher (fun c hc => by
+    obtain ⟨out, ws, h1, _⟩ := fix_post _ _ (h.chan c hc)
+    exact ⟨_, h1⟩)
+  refine ⟨r.1, r.2, hr, docFix_length pairs t r hr, ?_⟩
+  intro c hc
+  obtain ⟨ws, hw⟩ := docFix_channel pairs t r hr c
+  exact post_of_ok (h.chan c hc) hw
+
+/-- **doc_fix_idempotent_silent.**  Repairing the repaired document again returns it unchanged and
+warns about nothing. -/
+theorem doc_fix_idempotent_silent (pairs : List (Obj × Option (List Nat))) (t t' : Table) (ws : List DWarn)
+    (h : DocHyp pairs t) (hf : docFix pairs t = .ok (t', ws)) : docFix pairs t' = .ok (t', []) := by
+  have hl := docFix_length pairs t (t', ws) hf
+  apply docFix_stable pairs t' h.matcher
+  intro c hc
+  obtain ⟨ws', hw⟩ := docFix_channel pairs t (t', ws) hf c
+  exact (post_of_ok (h.chan c (by simp only at hl; omega)) hw).stable
+
+/-- the same statements for the small document type, with the pairs computed by the allocator
+model (`Doc.pairs`: `Model/SelectItems.lean: selectPackMapping` on the audioObject's own
+audioPackFormat / audioTrackUID references) -/
+theorem smallDoc_fix_post (d : Doc) (h : DocHyp d.pairs d.channels) :
+    ∃ t' ws, d.fix = .ok (t', ws) ∧ t'.length = d.channels.length ∧
+      (∀ c, c < d.channels.length → Post (objsFor d.pairs c) (Table.get d.channels c) (Table.get t' c)) ∧
+      docFix d.pairs t' = .ok (t', []) := by
+  obtain ⟨t', ws, h1, h2, h3⟩ := doc_fix_post d.pairs d.channels h
+  exact ⟨t', ws, h1, h2, h3, doc_fix_idempotent_silent d.pairs d.channels t' ws h h1⟩
+
+/-- The pack allocation of a selection state depends on the state only through the *last*
+audioObject of its path: the renderer (`select_rendering_items`, object path `p`) pairs the leaf
+audioObject with exactly the channels the repair's `ObjectChannelMatcher` (path `[leaf]`) clamps
+against it. -/
+theorem selectPackMapping_leaf (a : Adm.Adm) (st : Adm.State) (p : List Nat) (hp : st.objPath = some p) :
+    Adm.selectPackMapping a st =
+      Adm.selectPackMapping a { programme := none, content := none, objPath := some [p.getLastD 0] } := by
+  simp [Adm.selectPackMapping, Adm.allocProblem, hp]
+
+/-! ### examples: the model evaluates, `DocHyp` is inhabited, the excluded point -/
+
+private def tb (r d : Rat) : Block := ⟨some r, some d, true, false, none⟩
+/-- audioObject 0 (duration 1) references pack 0, which nests pack 1: channels 0 and 1; audioObject 1
+(duration 0.9) references pack 1 only: channel 1; audioObject 2 has no duration and inconsistent
+references (one track for a two-channel pack): the allocator is never asked about it. -/
+private def exDoc : Doc :=
+  ⟨[⟨none, some 1, [0], [some 0, some 1]⟩, ⟨some 5, some (mkRat 9 10), [1], [some 2]⟩, ⟨none, none, [0], [some 0]⟩],
+   [⟨3, [0], [1]⟩, ⟨3, [1], []⟩], [⟨0, 0⟩, ⟨1, 1⟩, ⟨1, 1⟩],
+   [[tb 0 (mkRat 1 2), tb (mkRat 1 2) (mkRat 6 10)], [tb 0 2]]⟩
+
+example : exDoc.pairs.map (·.2) = [some [0, 1], some [1], none] := by decide +kernel
+example : objsFor exDoc.pairs 0 = [⟨none, some 1⟩] ∧
+    objsFor exDoc.pairs 1 = [⟨none, some 1⟩, ⟨some 5, some (mkRat 9 10)⟩] := by decide +kernel
+/-- channel 0 is clamped to audioObject 0 (0.5 + 0.6 → 0.5 + 0.5), channel 1 to both (2 → 1 → 0.9) -/
+example : exDoc.fix = .ok ([[tb 0 (mkRat 1 2), tb (mkRat 1 2) (mkRat 1 2)], [tb 0 (mkRat 9 10)]],
+    [⟨0, ⟨.endAdvanced, 1⟩⟩, ⟨1, ⟨.endAdvanced, 0⟩⟩, ⟨1, ⟨.endAdvanced, 0⟩⟩]) := by decide +kernel
+
+example : DocHyp exDoc.pairs exDoc.channels := by
+  have e : objsFor exDoc.pairs 0 = [⟨none, some 1⟩] ∧
+      objsFor exDoc.pairs 1 = [⟨none, some 1⟩, ⟨some 5, some (mkRat 9 10)⟩] := by decide +kernel
+  refine ⟨by decide +kernel, ?_⟩
+  intro c hc
+  have hc' : c = 0 ∨ c = 1 := by simp [exDoc] at hc; omega
+  rcases hc' with rfl | rfl
+  · rw [e.1]
+    refine Hyp.timed ?_ ?_ ?_
+    · intro b hb; simp [exDoc, Table.get, tb] at hb; rcases hb with rfl | rfl <;> simp [Timed]
+    · refine ⟨?_, trivial⟩; simp [exDoc, Table.get, tb, Block.r]; decide +kernel
+    · intro o ho D hD; simp at ho; subst ho; simp at hD; subst hD
+      simp [exDoc, Table.get, tb, LastBelow, Block.r]; decide +kernel
+  · rw [e.2]
+    refine Hyp.timed ?_ ?_ ?_
+    · intro b hb; simp [exDoc, Table.get, tb] at hb; subst hb; simp [Timed]
+    · trivial
+    · intro o ho D hD; simp at ho
+      rcases ho with rfl | rfl <;> simp at hD <;> subst hD <;>
+        simp [exDoc, Table.get, tb, LastBelow, Block.r] <;> decide +kernel
+
+/-- **Excluded point of `DocHyp.matcher`.**  An audioObject *with* a duration whose references are
+inconsistent (one audioTrackUID for a two-channel pack): `AdmFormatRefError` escapes from
+`fix_blockFormat_timings` (run on the real code by the harness, outcome `error formatRef`). -/
+theorem excluded_doc_conflicting_refs :
+    (⟨[⟨none, some 1, [0], [some 0]⟩], [⟨3, [0, 1], []⟩], [⟨0, 0⟩], [[tb 0 1], [tb 0 1]]⟩ : Doc).fix
+      = .error .formatRef := by decide +kernel
 
 end Earverif.TimingFix
